@@ -101,7 +101,7 @@ Definition ent_RemovePurchaseOrderFromAcceptedQueue (w : eworld) (id : Z) : outc
   let s := ew_ent w in Ok (with_ent w (with_pos s (e_pos s) (e_raisedq s) (remove_z id (e_acceptedq s))), tt).
 Definition ent_AddPoToAcceptedQueue (w : eworld) (id : Z) : outcome (eworld * unit) :=
   let s := ew_ent w in Ok (with_ent w (with_pos s (e_pos s) (e_raisedq s) (e_acceptedq s ++ [id])), tt).
-Definition ent_AccAddressFromBech32 (a : addr) : outcome addr := if a =? BAD_ADDR then Err ERR_ENT else Ok a.
+Definition ent_AccAddressFromBech32 (a : addr) : outcome addr := if addr_parses a then Ok a else Err ERR_ENT.
 
 (* ---- message server: ids, whitelist, signers, parameters ---- *)
 Definition KEEPER_authority : addr := GOV_MACC.
@@ -137,7 +137,7 @@ Definition ent_AddPoToRaisedQueue (w : eworld) (id : Z) : outcome (eworld * unit
   let s := ew_ent w in Ok (with_ent w (with_pos s (e_pos s) (e_raisedq s ++ [id]) (e_acceptedq s)), tt).
 (* GetParamEntSignersAsAddressArray: the entries that decode to a non-empty address *)
 Definition ent_GetParamEntSignersAsAddressArray (w : eworld) : list addr :=
-  filter (fun a => negb (a =? BAD_ADDR)) (ep_signers (e_params (ew_ent w))).
+  filter addr_parses (ep_signers (e_params (ew_ent w))).
 Definition ent_PurchaseOrderExists (w : eworld) (id : Z) : bool := ahas id (e_pos (ew_ent w)).
 Definition ent_AddressIsWhitelisted (w : eworld) (a : addr) : bool := mem_addr a (e_wl (ew_ent w)).
 Definition ent_AddAddressToWhitelist (w : eworld) (a : addr) : outcome (eworld * unit) :=
